@@ -344,7 +344,7 @@ func FamilyWorld(t *rapid.T, o Opts) World {
 // recursive (6: through a TTU, 7: through usersets); with the few object ids of
 // the generator, cycles in the stored tuples are the common case.
 func CycleWorld(t *rapid.T, o Opts) World {
-	fam := rapid.IntRange(6, 7).Draw(t, "cycleFamily")
+	fam := []int{6, 7, 2, 5}[rapid.IntRange(0, 3).Draw(t, "cycleFamily")]
 	w := familyWorld(t, o, fam)
 	if len(w.Model.Conds) > 0 || chance(t, "cycleRandomTuples", 25) {
 		return w
@@ -353,27 +353,32 @@ func CycleWorld(t *rapid.T, o Opts) World {
 	// most answers then depend on derivations that run through the cycles
 	var ts []m.Tuple
 	n := o.MaxIDs
+	link := func(label string, pct int, obj, rel, user string) {
+		if chance(t, label, pct) && user != obj+"#"+rel { // a tuple relating a userset to itself is implicit and cannot be written
+			ts = append(ts, m.Tuple{Object: obj, Relation: rel, User: user})
+		}
+	}
 	for i := 0; i < n; i++ {
 		for j := 0; j < n; j++ {
 			gi, gj := fmt.Sprintf("group:%d", i), fmt.Sprintf("group:%d", j)
-			if fam == 6 {
-				if chance(t, "link", 40) {
-					ts = append(ts, m.Tuple{Object: gi, Relation: "parent", User: gj})
-				}
-				continue
-			}
-			if chance(t, "link01", 30) {
-				ts = append(ts, m.Tuple{Object: gi, Relation: "r0", User: gj + "#r1"})
-			}
-			if chance(t, "link10", 30) {
-				ts = append(ts, m.Tuple{Object: gi, Relation: "r1", User: gj + "#r0"})
+			switch fam {
+			case 6:
+				link("link", 40, gi, "parent", gj)
+			case 7:
+				link("link01", 30, gi, "r0", gj+"#r1")
+				link("link10", 30, gi, "r1", gj+"#r0")
+			case 2:
+				link("link00", 40, gi, "r0", gj+"#r0")
+			default: // 5: r0: [group#r0, group#r1, user...], r1: [user]
+				link("link00", 35, gi, "r0", gj+"#r0")
+				link("link01", 20, gi, "r0", gj+"#r1")
 			}
 		}
 	}
 	for i := 0; i < n; i++ {
 		for _, rel := range []string{"r0", "r1", "r2"} {
-			if chance(t, "grant", 15) {
-				ts = append(ts, m.Tuple{Object: fmt.Sprintf("group:%d", i), Relation: rel, User: "user:0"})
+			if r := w.Model.Relation("group", rel); r != nil && r.Rewrite.HasThis() {
+				link("grant", 15, fmt.Sprintf("group:%d", i), rel, "user:0")
 			}
 		}
 	}
@@ -381,7 +386,14 @@ func CycleWorld(t *rapid.T, o Opts) World {
 		return w
 	}
 	sort.Slice(ts, func(i, j int) bool { return ts[i].Key() < ts[j].Key() })
-	return World{Model: w.Model, Tuples: ts}
+	// keep only what the model admits (the families vary their restrictions)
+	var valid []m.Tuple
+	for _, tu := range ts {
+		if refsem.ValidForRead(w.Model, tu) == refsem.OK {
+			valid = append(valid, tu)
+		}
+	}
+	return World{Model: w.Model, Tuples: valid}
 }
 
 func familyWorld(t *rapid.T, o Opts, family int) World {
